@@ -111,7 +111,7 @@ pub fn scenarios(tier: Tier) -> Vec<Scenario> {
     for &cap in caps {
         for extra in 1..=2usize {
             for np in 1..=2u32 {
-                let b = if tier == Tier::Quick { 2 } else { 3 };
+                let b = if tier == Tier::Quick { 2 } else { 4 };
                 add_parked(cap, cap + extra, np, b);
             }
         }
